@@ -107,6 +107,14 @@ func newScryptWalletFileBytes(password string, privateKey []byte, n int, p int) 
 }
 
 func (w *walletFileScrypt) decrypt(password []byte) error {
+	// Validate the parameters from the file before they reach the scrypt primitive,
+	// which panics on r/p of zero and allocates the requested key length up front
+	if w.Crypto.KDFParams.DKLen != derivedKeyLen {
+		return fmt.Errorf("invalid scrypt keystore: derived key length %d != %d", w.Crypto.KDFParams.DKLen, derivedKeyLen)
+	}
+	if w.Crypto.KDFParams.R <= 0 || w.Crypto.KDFParams.P <= 0 {
+		return fmt.Errorf("invalid scrypt keystore: r=%d p=%d must be greater than zero", w.Crypto.KDFParams.R, w.Crypto.KDFParams.P)
+	}
 	derivedKey, err := scrypt.Key(password, w.Crypto.KDFParams.Salt, w.Crypto.KDFParams.N, w.Crypto.KDFParams.R, w.Crypto.KDFParams.P, w.Crypto.KDFParams.DKLen)
 	if err != nil {
 		return fmt.Errorf("invalid scrypt keystore: %s", err)
